@@ -370,6 +370,68 @@ struct Codec<TrackedT<N, MO, CT>>
     static void assign(T& dst, std::uint64_t c) noexcept { dst = T(static_cast<std::uint32_t>(c)); }
 };
 
+// Trivially DESTRUCTIBLE but not trivially copy/move constructible: every object remembers its own address, which
+// only its constructors set. A byte-wise relocation (memcpy/memmove instead of the move constructor) leaves a stale
+// address behind, and so does reading storage in which no constructor ever ran. No destructor, hence no ledger entry.
+template <std::size_t N>
+struct __attribute__((packed)) SelfPtr
+{
+    static_assert(N >= 12);
+    std::uint32_t id;
+    const void* self;
+    unsigned char pad[N - 12];
+    explicit SelfPtr(std::uint32_t v) noexcept : id(v), self(this) { fill(); }
+    SelfPtr(const SelfPtr& o) noexcept : id(o.id), self(this) { fill(); }
+    SelfPtr& operator=(const SelfPtr& o) noexcept
+    {
+        id = o.id;
+        return *this;
+    }
+    ~SelfPtr() = default;
+    void fill() noexcept
+    {
+        for (std::size_t i = 0; i < sizeof(pad); ++i) pad[i] = static_cast<unsigned char>(id * 7 + i);
+    }
+    bool at_home() const noexcept
+    {
+        const void* p;
+        std::memcpy(&p, reinterpret_cast<const unsigned char*>(this) + offsetof_self(), sizeof(p));
+        return p == static_cast<const void*>(this);
+    }
+    static constexpr std::size_t offsetof_self() noexcept { return sizeof(std::uint32_t); }
+    friend bool operator==(const SelfPtr& a, const SelfPtr& b) noexcept { return a.id == b.id; }
+    friend bool operator!=(const SelfPtr& a, const SelfPtr& b) noexcept { return a.id != b.id; }
+    friend bool operator<(const SelfPtr& a, const SelfPtr& b) noexcept { return a.id < b.id; }
+};
+static_assert(std::is_trivially_destructible_v<SelfPtr<12>> && !std::is_trivially_copy_constructible_v<SelfPtr<12>> &&
+              !std::is_trivially_move_constructible_v<SelfPtr<12>> && alignof(SelfPtr<12>) == 1 && sizeof(SelfPtr<13>) == 13);
+
+template <std::size_t N>
+struct Codec<SelfPtr<N>>
+{
+    using T = SelfPtr<N>;
+    static constexpr bool TRACKED = false;
+    static constexpr bool MOVE_ONLY = false;
+    static constexpr bool IDENTITY_EQ = false;
+    static constexpr bool ALLOCATES = false;
+    static constexpr MovedState MOVED = MS_SAME;
+    static constexpr std::uint64_t canon(std::uint64_t v) noexcept { return v & 0xFFFFFFFFu; }
+    static T make(std::uint64_t c) noexcept { return T(static_cast<std::uint32_t>(c)); }
+    static std::uint64_t read(const T& x) noexcept
+    {
+        if (!x.at_home())
+        {
+            env_violation("C06", "object-not-where-it-was-constructed",
+                          "a non-trivially-copyable object was relocated byte-wise or is read from storage no constructor ran in");
+            return V_UNSPEC - 5;
+        }
+        std::uint32_t id;
+        std::memcpy(&id, &x, sizeof(id));
+        return id;
+    }
+    static void assign(T& dst, std::uint64_t c) noexcept { dst = make(c); }
+};
+
 // std::pair<u32,u32>: trivially copy/move *constructible* and trivially destructible but NOT trivially copyable
 // (user-provided assignment) -- the type class a wrong trait choice in the relocation paths mishandles
 using Pair32 = std::pair<std::uint32_t, std::uint32_t>;
